@@ -261,19 +261,19 @@ func (s *seqRun) phase(newRev, oldRev string, prog []string) {
 	for _, st := range prog {
 		switch st {
 		case "D":
-			_ = x.reconcileEmu(oldRev)
+			_ = x.reconcile(oldRev)
 		case "A":
-			_ = x.reconcileEmu(newRev)
+			_ = x.reconcile(newRev)
 		case "I":
 			x.loseStatus(oldRev)
-			_ = x.reconcileEmu(oldRev)
+			_ = x.reconcile(oldRev)
 		}
 		s.afterStep()
 	}
 	for round := 0; round < 3; round++ {
-		e1 := x.reconcileEmu(oldRev)
+		e1 := x.reconcile(oldRev)
 		s.afterStep()
-		e2 := x.reconcileEmu(newRev)
+		e2 := x.reconcile(newRev)
 		s.afterStep()
 		if e1 == nil && e2 == nil {
 			x.count("phases_converged", 1)
@@ -311,7 +311,7 @@ func (sc *seqCase) prepare(c *kit.Ctx, name string, desc any, seed uint64) *exec
 
 // install runs rev1's first reconcile and creates rev2 (inactive until the phase flips it).
 func (sc *seqCase) install(x *exec) bool {
-	if err := x.reconcileEmu("pk-r1"); err != nil {
+	if err := x.reconcile("pk-r1"); err != nil {
 		x.c.Violate("harness:initial-install-failed", x.caseName, err.Error(), x.witness(nil))
 		return false
 	}
